@@ -2226,6 +2226,14 @@ func (s *swamp) SaveFunction(t treasure.Treasure, guardID guard.ID) treasure.Tre
 				s.addToUpdateTimeBeacon(t)
 			}
 		}
+		if !t.IsContentTypeChanged() && t.IsCreatedAtChanged() {
+			// CreatedAt moved: same re-filing for the built creation-time index.
+			s.deleteTreasureIfBeaconInitialized(s.creationTimeBeaconASC, t.GetKey())
+			s.deleteTreasureIfBeaconInitialized(s.creationTimeBeaconDESC, t.GetKey())
+			if t.GetCreatedAt() != 0 {
+				s.addToCreationTimeBeacon(t)
+			}
+		}
 
 		// the treasure is modified, we need to add it to the swamp and write it to the chroniclerInterface
 		s.treasuresWaitingForWriter.Add(t)
